@@ -218,15 +218,26 @@ Proof.
 Qed.
 
 (* cext.disk_partitions + loop, all = True (no /proc/filesystems involved) *)
-Lemma disk_partitions_all fixed fsb es :
+Lemma disk_partitions_gen_all fixed fsb es :
   forallb wf_ment es = true -> forallb short_line es = true -> forallb plain_dev es = true ->
   (fixed = true \/ forallb utf8_ok es = true) ->
-  disk_partitions fixed true fsb (k_mounts es) = Val (spec_partitions true [] es).
+  disk_partitions_gen fixed true fsb (k_mounts es) = Val (spec_partitions true [] es).
 Proof.
-  intros Hwf Hs Hp Hu. unfold disk_partitions. cbn [obind].
+  intros Hwf Hs Hp Hu. unfold disk_partitions_gen. cbn [obind].
   rewrite getmntent_exact by assumption. cbn [obind]. rewrite c_disk_partitions_ok by assumption. cbn [obind].
   apply partitions_loop_exact; [|assumption]. intros t. reflexivity.
 Qed.
+
+Lemma disk_partitions_all fsb es :
+  forallb wf_ment es = true -> forallb short_line es = true -> forallb plain_dev es = true ->
+  disk_partitions true fsb (k_mounts es) = Val (spec_partitions true [] es).
+Proof. intros. apply disk_partitions_gen_all; auto. Qed.
+
+Lemma disk_partitions_legacy_all fsb es :
+  forallb wf_ment es = true -> forallb short_line es = true -> forallb plain_dev es = true ->
+  forallb utf8_ok es = true ->
+  disk_partitions_legacy true fsb (k_mounts es) = Val (spec_partitions true [] es).
+Proof. intros. apply disk_partitions_gen_all; auto. Qed.
 
 Definition ment_long : ment :=
   {| m_dev := bs "/dev/sda1"; m_dir := 47 :: repeat 120 4090; m_type := bs "ext4"; m_opts := bs "rw" |}.
@@ -238,17 +249,21 @@ Definition ment_plain : ment :=
 (* known finding: a line over 4095 bytes comes back cut *)
 Lemma mounts_longline_refuted : exists es,
   forallb wf_ment es = true /\ forallb plain_dev es = true /\ forallb utf8_ok es = true /\
-  exists rows, disk_partitions false true [] (k_mounts es) = Val rows /\ map m_type rows = [[]].
+  exists rows, disk_partitions true [] (k_mounts es) = Val rows /\ map m_type rows = [[]].
 Proof.
   exists [ment_long]. repeat split; try (vm_compute; reflexivity).
   eexists. split; vm_compute; reflexivity.
 Qed.
 
 (* known finding: one non-UTF-8 byte in the options makes the whole call fail *)
-Lemma mounts_nonutf8_refuted : exists es,
+Lemma mounts_legacy_nonutf8_refuted : exists es,
   forallb wf_ment es = true /\ forallb plain_dev es = true /\ forallb short_line es = true /\
-  disk_partitions false true [] (k_mounts es) = Exc UnicodeError.
+  disk_partitions_legacy true [] (k_mounts es) = Exc UnicodeError.
 Proof. exists [ment_nonutf8]. repeat split; vm_compute; reflexivity. Qed.
+
+(* the same non-UTF-8 entry comes through unchanged with the code of record *)
+Lemma mounts_nonutf8_ok : disk_partitions true [] (k_mounts [ment_nonutf8]) = Val [ment_nonutf8].
+Proof. vm_compute. reflexivity. Qed.
 
 Example mounts_example :
   forallb wf_ment [ment_plain] = true /\ forallb short_line [ment_plain] = true /\
